@@ -42,7 +42,7 @@ def make_part(pid, leader, nb, start, end, tskind=2, isr_short=False, leader_las
     if leader_last:
         replicas.reverse()     # the leader need not be the first replica
     return {"id": pid, "leader": leader, "replicas": replicas, "isr": [leader] if isr_short else list(replicas),
-            "start": start, "end": end, "ts": ts_pattern(end, tskind), "lerr": 0, "merr": 0}
+            "start": start, "end": end, "ts": ts_pattern(end, tskind), "lerr": 0, "merr": 0, "lerrt": 0}
 
 
 def make_cs(nb, shapes, ranges, tskinds=None, committed=None, isr_short=(), controller=1, coord=None, leader_last=()):
@@ -83,6 +83,8 @@ def with_fault(cs, fault):
         part_of(cs, fault[1], fault[2])["lerr"] = fault[3]
     elif kind == "merr":
         part_of(cs, fault[1], fault[2])["merr"] = fault[3]
+    elif kind == "lerrt":
+        part_of(cs, fault[1], fault[2])["lerrt"] = fault[3]
     elif kind == "down":
         cs["down"] = [fault[1]]
         cs["downMode"] = fault[2] if len(fault) > 2 else "refuse"
@@ -372,6 +374,9 @@ def enumerate_cases(tier, seed):
     states.append(("c22-lerr", with_fault(c22, ("lerr", "ta", 1, 6))))
     states.append(("c22-down", with_fault(c22, ("down", 2))))
     states.append(("c22-merr", with_fault(c22, ("merr", "tb", 0, 9))))
+    # lookups by timestamp fail on one partition (e.g. UnsupportedForMessageFormat) while first/last succeed: one call that
+    # asks for several timestamps of that partition gets the error AND the offsets that could be answered
+    states.append(("c22-lerrt", with_fault(c22, ("lerrt", "ta", 0, 43))))
     nrand = 72 if thorough else 4
     for k in range(nrand):
         cs = random_cs(rng)
@@ -395,7 +400,7 @@ def enumerate_cases(tier, seed):
         ntp = len(all_tps(cs))
         if name.startswith("c22"):
             tsets = [(-2,), (-1,), (10,), (-2, -1), (-2, -1, 15), (10, 20), (-2, -1, 0, 10, 20, 25)]
-            qs += q_listoffsets_uniform(csi, cs, tsets if thorough or name in ("c22", "c22-lerr") else tsets[3:5])
+            qs += q_listoffsets_uniform(csi, cs, tsets if thorough or name in ("c22", "c22-lerr", "c22-lerrt") else tsets[3:5])
             qs += q_listoffsets_random(rng, csi, cs, 150 if thorough else (60 if name in ("c22", "c22-lerr", "c22-down") else 20))
             qs += q_offsetfetch(csi, cs)
             qs += q_commit(rng, csi, cs, 60 if thorough else 25)
@@ -424,6 +429,11 @@ def enumerate_cases(tier, seed):
                 C.add_job(csi, vsets[(k + 3 + 5 * j) % len(vsets)],
                           q_metadata(csi, cs) + q_readpartitions(csi, cs) + q_listoffsets_random(rng, csi, cs, 25) +
                           q_offsetfetch(csi, cs, rng, 8) + q_commit(rng, csi, cs, 8))
+    # partition-level metadata errors through every metadata decoder of the Conn (v1 and v6+) and of the Client
+    for name, cs in states:
+        if any(p["merr"] for t in cs["topics"] for p in t["parts"]):
+            for mv in (1, 6, MAXVERS["metadata"]):
+                C.add_job(csi_of[name], dict(MAXVERS, metadata=mv), q_readpartitions(csi_of[name], cs) + q_metadata(csi_of[name], cs))
     if not thorough:
         # a slice of the exhaustive (partition, timestamp) subsets on the 2x2 cluster, with and without a failing partition
         for name in ("c22", "c22-lerr"):
